@@ -25,6 +25,7 @@ type Params struct {
 	MinAlloc   int  // allocate (and write) this many pages first
 	FreeTop    int  // percent of the frees that take the highest live page (releases the end of the data area)
 	KeepFill   int  // try to keep at most this percent of a bounded file live (0 = default 60)
+	FreeRun    int  // after the second transaction: leave a free region of exactly this many pages between two live pages, then reopen (0 = off)
 }
 
 // DefaultParams returns the standard mix.
@@ -407,7 +408,43 @@ func (s *Session) Continue(r *RNG, p Params) {
 		if r.Chance(p.Reopen) {
 			s.ReopenCheck()
 		}
+		if p.FreeRun > 0 && t == 1 && s.F != nil {
+			s.FreeRun(p.FreeRun)
+		}
 	}
+}
+
+// FreeRun commits n+2 adjacent fresh pages, frees the n inner ones in a second transaction (the
+// free list then holds a region of exactly n pages, fenced by two live pages) and reopens the
+// file, so that the following transactions allocate from the recovered free list.
+func (s *Session) FreeRun(n int) {
+	if s.Begin(TxOpts{}) != "ok" {
+		return
+	}
+	ids, res := s.Alloc(n + 2)
+	adjacent := res == "ok"
+	for i := 1; adjacent && i < len(ids); i++ {
+		adjacent = ids[i] == ids[i-1]+1
+	}
+	if !adjacent {
+		s.Rollback("rollback")
+		return
+	}
+	for _, id := range ids {
+		s.Write(id, "full")
+	}
+	if s.Commit() != "ok" || s.Begin(TxOpts{}) != "ok" {
+		return
+	}
+	for _, id := range ids[1 : n+1] {
+		s.Free(id)
+	}
+	if s.Commit() != "ok" {
+		return
+	}
+	s.mark(fmt.Sprintf("free-run-%d", n))
+	s.Quiesce()
+	s.ReopenCheck()
 }
 
 // Finish closes the file.
